@@ -421,7 +421,12 @@ class CallMixin:
         key = (cls.module, cls.name, name)
         if key not in self.global_cache:
             if cls.is_enum:
-                value = self.eval(cls.consts[name], Frame({}, cls.module))
+                expr = cls.consts[name]
+                if isinstance(expr, ast.Call) and getattr(expr.func, "id", getattr(expr.func, "attr", "")) == "auto":
+                    # enum.auto(): 1, 2, 3, ... in definition order
+                    value = IntV(list(cls.consts).index(name) + 1)
+                else:
+                    value = self.eval(expr, Frame({}, cls.module))
                 member = ObjV(cls.name, {"name": StrV(s=name), "value": value, "_name_": StrV(s=name)})
                 self.global_cache[key] = member
             else:
